@@ -39,13 +39,15 @@ Fixpoint all_pairs_ok (l : list (order * Z)) : bool :=
   end.
 
 (* ---- data ---- *)
-Record ratom := { ra_key : Z; ra_name : string; ra_resname : string }.
+(* ra_attrs: further attributes of the atom (those of its residue in the sequence are passed on to every atom of it) *)
+Record ratom := { ra_key : Z; ra_name : string; ra_resname : string; ra_attrs : list (string * string) }.
 Record mnode := { mn_key : Z; mn_resid : Z; mn_atoms : list ratom }.
 (* m_labels: the 'linktype' attribute of the residue-graph edges that carry one *)
 Record meta := { m_nodes : list mnode; m_edges : list (Z * Z); m_labels : list (Z * Z * string) }.
 
+(* la_attrs: further attribute conditions of the link atom (every one must be met by the atom) *)
 Record latom := { la_key : string; la_name : string; la_order : order; la_resnames : list string;
-                  la_replace : list (string * string) }.
+                  la_replace : list (string * string); la_attrs : list (string * string) }.
 Record linter := { li_sec : string; li_atoms : list string; li_params : list string; li_version : Z;
                    li_meta : list (string * string) }.
 (* l_res_labels: the 'linktype' attribute of the edges of the link's residue graph that carry one *)
@@ -165,8 +167,11 @@ Definition residue_matches (g : meta) (l : link) : list (list (order * Z)) :=
                    (assignments (l_res_nodes l) (map mn_key (m_nodes g)))).
 
 (* ---- atom-level matching ---- *)
+Definition has_attr (a : ratom) (kv : string * string) : bool :=
+  existsb (fun kv' => String.eqb (fst kv') (fst kv) && String.eqb (snd kv') (snd kv)) (ra_attrs a).
 Definition atom_ok (la : latom) (a : ratom) : bool :=
-  String.eqb (ra_name a) (la_name la) && existsb (String.eqb (ra_resname a)) (la_resnames la).
+  String.eqb (ra_name a) (la_name la) && existsb (String.eqb (ra_resname a)) (la_resnames la) &&
+  forallb (has_attr a) (la_attrs la).
 
 Fixpoint mu_get (mu : list (order * Z)) (o : order) : option Z :=
   match mu with [] => None | (o', n) :: r => if order_eqb o' o then Some n else mu_get r o end.
